@@ -289,6 +289,27 @@ Definition keys_unique (c : circuit) : Prop := NoDup (dkeys (gates c)).
 Definition bench_ok (c : circuit) : Prop :=
   labels_ok c /\ ops_exist c /\ inputs_consistent c /\ arities_ok c /\ keys_unique c.
 
+(* the same hypotheses as one executable test (sound for bench_ok: Proofs/BenchRoundtrip.v) *)
+Definition bench_okb (c : circuit) : bool :=
+  forallb (fun kg => label_ok (fst kg) && forallb label_ok (gops (snd kg))) (gates c)
+  && forallb label_ok (inputs c) && forallb label_ok (outputs c)
+  && forallb (fun kg => forallb (has_gate c) (gops (snd kg))) (gates c)
+  && forallb (fun l => match dget (gates c) l with
+                       | Some g => gate_eqb g (mkGate INPUT [])
+                       | None => false
+                       end) (inputs c)
+  && forallb (fun kg => negb (gtype_beq (gtyp (snd kg)) INPUT) || memb (fst kg) (inputs c)) (gates c)
+  && forallb (fun kg => gtype_beq (gtyp (snd kg)) INPUT
+                        || den_accepts (gtyp (snd kg)) (List.length (gops (snd kg)))) (gates c)
+  && nodupb (dkeys (gates c)).
+
+(* for the trip through a text file: no carriage return in labels (a text-mode read turns it
+   into a newline) *)
+Definition no_cr (l : string) : Prop := has_char ch_cr l = false.
+Definition labels_no_cr (c : circuit) : Prop :=
+  (forall l g, In (l, g) (gates c) -> no_cr l /\ Forall no_cr (gops g))
+  /\ Forall no_cr (inputs c) /\ Forall no_cr (outputs c).
+
 (* ------------------------------------------------------------------ correspondence entry points *)
 Definition res_circuit_eqb (a b : res circuit) : bool :=
   match a, b with
@@ -310,6 +331,7 @@ Definition check_format_case (x : circuit * string) : bool :=
   String.eqb (format_circuit (fst x)) (snd x).
 Definition check_eq_case (x : circuit * circuit * bool) : bool :=
   let '(a, b, r) := x in Bool.eqb (circuit_eq_py a b) r.
+Definition check_okb_case (x : circuit * bool) : bool := Bool.eqb (bench_okb (fst x)) (snd x).
 (* from_bench_string(text): full state incl. gate-map order and users index, or the error kind;
    the flag says whether the text went through a file (universal newlines) *)
 Definition check_parse_case (x : string * bool * res circuit) : bool :=
